@@ -3,6 +3,7 @@
 package rt
 
 import (
+	"strconv"
 	"bytes"
 	"encoding/hex"
 	"encoding/json"
@@ -469,7 +470,7 @@ func evalStr(frag string, e Env) (string, bool) {
 }
 
 func evalBool(frag string, e Env) (bool, bool) {
-	switch frag {
+	switch frag = strings.TrimSpace(frag); frag {
 	case "b0":
 		return e.B0, true
 	case "b1":
@@ -591,7 +592,7 @@ func Table(p *gen.Printer, src string, e Env) []string {
 				if b {
 					bb = "1"
 				}
-				add("B:" + hxu(fr.Text) + "=" + bb)
+				add("B:" + hxu(strings.TrimSpace(fr.Text)) + "=" + bb) // (the condition is looked up without the blanks around it)
 			} else {
 				strFrag(fr.Text)
 			}
@@ -606,6 +607,9 @@ func Table(p *gen.Printer, src string, e Env) []string {
 				if b, ok := evalBool(h[8:], e); ok {
 					add("B:" + hxu(h[8:]) + "=" + map[bool]string{true: "1", false: "0"}[b])
 				}
+			case strings.HasPrefix(h, "switch n0"):
+				// the tag's value, as the text its `case` literals are compared with
+				add("S:" + hxu(h) + "=" + hxu(strconv.Itoa(e.N0)))
 			case strings.HasPrefix(h, "for "):
 				var it []string
 				for _, x := range e.Xs {
